@@ -50,7 +50,10 @@ def run_tlc(spec, cfg, name=None, workers=16, env=None, timeout=3600, coverage=F
     name = name or spec
     os.makedirs(WORK, exist_ok=True)
     metadir = os.path.join(WORK, f"{name}-{os.getpid()}-{int(time.time() * 1000) % 100000}")
-    cmd = ["java", "-XX:+UseParallelGC", f"-Xmx{heap}"]
+    # TLC and SANY leave scratch directories in java.io.tmpdir: keep them inside the run's own work area
+    jtmp = metadir + "-jtmp"
+    os.makedirs(jtmp, exist_ok=True)
+    cmd = ["java", "-XX:+UseParallelGC", f"-Xmx{heap}", f"-Djava.io.tmpdir={jtmp}"]
     if dfs:
         cmd.append("-Dtlc2.tool.queue.IStateQueue=StateDeque")
     cmd += ["-cp", f"{JAR}:{DEPS}", "tlc2.TLC", "-metadir", metadir, "-noGenerateSpecTE",
@@ -83,6 +86,7 @@ def run_tlc(spec, cfg, name=None, workers=16, env=None, timeout=3600, coverage=F
         raise TLCError(f"TLC timed out after {timeout}s on {spec}/{cfg}\n{out[-2000:]}")
     finally:
         shutil.rmtree(metadir, ignore_errors=True)
+        shutil.rmtree(jtmp, ignore_errors=True)
     r = TLCResult()
     r.returncode, r.stdout, r.wall_s = rc, out, time.time() - t0
     m = None
